@@ -30,7 +30,7 @@ const SETTERS: [&str; 10] = ["set_year", "set_month", "set_day", "set_day_of_yea
 const CLEARS: [&str; 9] = ["clear_until_year", "clear_until_month", "clear_until_day", "clear_until_hour", "clear_until_minute", "clear_until_second", "clear_until_milli", "clear_until_micro", "clear_until_nano"];
 
 /// model: local instant after the operation, or None when the operation must be refused
-fn model(local: i128, op: &Op) -> Option<i128> {
+pub fn model(local: i128, op: &Op) -> Option<i128> {
     let f = tl::fields(local);
     let tod = f.day_ns as i128;
     match op {
